@@ -76,7 +76,19 @@ EXTRA_CHECK_BUILDERS = {}     # check kind -> callable(pa, check spec) (register
 EXTRA_PARSER_BUILDER = None   # callable(pa, parser spec dict) for dict-valued parser specs
 
 
+_SHARED = {}   # share id -> Check object, valid during one top-level build (one Check *instance* attached to several components)
+
+
 def build_check(pa, c):
+    sid = c.get("share")
+    if sid is not None:
+        if sid not in _SHARED:
+            _SHARED[sid] = _build_check(pa, c)
+        return _SHARED[sid]
+    return _build_check(pa, c)
+
+
+def _build_check(pa, c):
     kw = dict(c.get("kw") or {})
     k = c["k"]
     if k in EXTRA_CHECK_BUILDERS:
@@ -139,6 +151,7 @@ def build_pandas_index(ix):
 def build_pandas(spec):
     import pandera as pa
 
+    _SHARED.clear()
     kind = spec.get("kind", "frame")
     if kind == "frame":
         s = full(spec, FRAME_DEFAULTS)
